@@ -191,8 +191,13 @@ def finish(prop, tier, seed, level, parts, rule, assumptions, t0):
         print('VIOLATION property=%s replay=%s' % (prop, path))
         print('  ' + (msg or ''))
     inconc = [x for p in parts for x in p.coverage.get('inconclusive', [])]
-    print('%s %s: evaluations=%d distinct_nontrivial=%d violations=%d%s wall=%.1fs' % (
-        prop, tier, cov['evaluations'], cov['distinct_nontrivial'], len(viol), (' inconclusive=%d' % len(inconc)) if inconc else '', time.time() - t0))
+    unrep = [x for p in parts for x in p.coverage.get('unreproduced', [])]
+    for x in unrep[:5]:
+        # a failure that does not replay three times is not reported as a violation (no replay file to give), but it is never silent
+        print('NOTE unreproduced failure (%s): %s' % (x.get('config'), str(x.get('message'))[:300]))
+    print('%s %s: evaluations=%d distinct_nontrivial=%d violations=%d%s%s wall=%.1fs' % (
+        prop, tier, cov['evaluations'], cov['distinct_nontrivial'], len(viol), (' inconclusive=%d' % len(inconc)) if inconc else '',
+        (' unreproduced=%d' % len(unrep)) if unrep else '', time.time() - t0))
     return 1 if viol else 0
 
 
@@ -538,7 +543,9 @@ def check_C19(tier, seed, t0):
 C15_RULE = ('every algorithm exported by memory.hpp (construct_at, destroy/_at/_n, uninitialized_copy/_n, uninitialized_move/_n, '
             'uninitialized_default/value_construct/_n, uninitialized_relocate/_n, relocate_at) x length 0..8 exhaustively plus seed-derived longer '
             'lengths x source {T*, const T*, deque, list, forward_list, single-pass (copy family), move_iterator} x destination {T*, wrapped forward '
-            'iterator over raw storage} x element {int, TC7, TR, NTR, ThrM (throwing move)} x every throw index, built as C++11/14/17/20; oracle: '
+            'iterator over raw storage} x element {int, TC7, TR, NTR, ThrM (throwing move), move-only with throwing move, throwing move with noexcept copy} x every '
+            'throw index, built as C++11/14/17/20; construct_at on C arrays; source and destination of different value types (uint8->bool, int->float, ...: values '
+            'converted, never raw bytes); construct_at(p, arg of type T) picks the same constructor overload as ::new (p) T(arg); oracle: '
             'reference semantics (values, returned iterators/pairs as distances, source advance), on a throw nothing created survives, relocate sources '
             'stay alive, canaries around the destination intact; non-trivial = len >= 2 and (non-pointer iterator or non-trivial value or interior '
             'throw index); distinct = distinct grid point per language standard')
